@@ -146,6 +146,10 @@ def _gen_script(rng, kind, faulty):
         # behaviour of the program that has nothing to do with its result. Derived from tool_seed, not drawn, so that
         # the rest of the generated history is what it was before this fault kind existed
         s["bad_bytes"] = True
+    if kind in ("clustalo", "muscle3", "muscle5", "mafft", "stubmsa") and s["tool_seed"] % 17 == 3:
+        # the disk is full at the moment the wrapper writes the program's input files in start(): a failure to launch
+        # (derived from tool_seed, not drawn, like bad_bytes)
+        s["disk_full"] = True
     if not faulty:
         return s
     f = rng.choice(["launch", "nonzero", "hang", "out", "tree", "nonzero_partial", "eval"])
@@ -1272,7 +1276,12 @@ class Sim:
     def x_start(self, rec, op, fn, args, kwargs):
         script = rec.script
         expect_fail = None
-        if rec.kind != "stubpoll" and rec.exec_dir_path is not None and not os.path.isdir(rec.exec_dir_path):
+        if script.get("disk_full") and rec.kind in ("clustalo", "muscle3", "muscle5", "mafft", "stubmsa"):
+            # the wrapper writes the program's input through its temp-file handles before anything else: ENOSPC
+            expect_fail = OSError
+            self.world.disk_full = True
+            self.res.stats["fault:disk-full-at-start"] += 1
+        elif rec.kind != "stubpoll" and rec.exec_dir_path is not None and not os.path.isdir(rec.exec_dir_path):
             expect_fail = FileNotFoundError
             self.res.stats["fault:exec-dir-missing"] += 1
         elif script["launch"] != "ok":
@@ -1287,7 +1296,10 @@ class Sim:
             expect_fail = sw.INJECTED_CLASSES
             self.res.stats["fault:interrupt-after-launch"] += 1
         ctrl = self.ctrl_for(rec) if self.real else None
-        st, val = call(fn)
+        try:
+            st, val = call(fn)
+        finally:
+            self.world.disk_full = False  # somebody freed space afterwards
         if self.real and st == "exc" and script.get("post_launch") == "fail" and getattr(rec.app, "_process", None) is not None:
             rec.procs.append(RealProc(rec.app._process, rec, self.world, ctrl))
             for p in rec.procs:
@@ -2283,8 +2295,10 @@ def execute_real(spec, keep_log=0):
     sim.open_files = []
     res = sim.res
     saved = (appmod.time, tempfile.tempdir, tempfile._name_sequence, os.getcwd(), os.environ.get("VERIF_TOOL_CTRL"))
+    ntf_saved = []
     try:
         appmod.time = sw.VClock(sim.world)
+        ntf_saved = sw.install_tempfile_seam(sim.world)
         tempfile.tempdir = sim.tmp
         tempfile._name_sequence = sw.DetNames(sim.cfg.get("name_seed", 0))
         try:
@@ -2308,6 +2322,7 @@ def execute_real(spec, keep_log=0):
             sim.close()
     finally:
         appmod.time, tempfile.tempdir, tempfile._name_sequence, cwd, ctrl = saved
+        sw.remove_tempfile_seam(ntf_saved)
         if ctrl is None:
             os.environ.pop("VERIF_TOOL_CTRL", None)
         else:
